@@ -32,6 +32,7 @@ func joinItems(items []string) string {
 // ---------------- C01 ----------------
 
 func genC01(c *Ctx) {
+	writeAfterFault(c, "fasta")
 	specialCases(c, "fasta")
 	flatBufferRecords(c, "fasta")
 	// Per-record encoding: Write == MarshalText == model bytes; lines <= 80.
@@ -123,6 +124,7 @@ func genC01(c *Ctx) {
 // ---------------- C02 ----------------
 
 func genC02(c *Ctx) {
+	writeAfterFault(c, "fastq")
 	specialCases(c, "fastq")
 	flatBufferRecords(c, "fastq")
 	qualsLengthGrid(c)
@@ -287,6 +289,7 @@ func samEqual(a, b *sam.SAM) bool {
 }
 
 func genC03(c *Ctx) {
+	writeAfterFault(c, "sam")
 	specialCases(c, "sam")
 	specialCases(c, "samh")
 	for i := 0; i < c.n(500); i++ {
@@ -458,6 +461,7 @@ func truncBed(b *bed.BED) *bed.BED {
 func bedOpArgs(b *bed.BED) string { return bedS(b)[2:] }
 
 func genC04(c *Ctx) {
+	writeAfterFault(c, "bed")
 	specialCases(c, "bed")
 	for i := 0; i < c.n(600); i++ {
 		n := 3 + c.rng.Intn(10)
@@ -581,6 +585,7 @@ func allTrees(n int, f func(parents []int)) {
 }
 
 func genC05(c *Ctx) {
+	writeAfterFault(c, "newick")
 	specialCases(c, "newick")
 	check := func(ts []*newick.Node, seps [][]byte, kind string) {
 		txt := nwkWrite(ts, seps)
